@@ -84,9 +84,10 @@ PROPERTY FailedKeeps
   MaxReloads = {p.get('maxreloads', 1)}
   NPARTS = {nparts}
   PART = {part}
+  Queries = {"TRUE" if p.get('queries') else "FALSE"}
 INIT Init
 NEXT Next
-VIEW View
+VIEW {"ViewH" if p.get("histview") else "View"}
 CONSTRAINT Bound
 {inv if mode in ("mc", "both") else ""}
 {"ACTION_CONSTRAINT Emit" if mode in ("emit", "both") else ""}
@@ -148,6 +149,8 @@ class Ctx:
             return f.remove(o[1])
         if o[0] == "exp":
             return f.expand()
+        if o[0] == "chk":      # a look-up as an operation of the history
+            return f.check(o[1])
 
     def reload(self, f, c, channel):
         """export + load; what the format does not store (hash function, fingerprint width, expansion settings) is re-supplied"""
@@ -392,8 +395,11 @@ def profiles(tier, light=False):
                           maxcap=2, maxdepth=4, maxout=2, nparts=1, er=0.001))
     if light and tier == "quick":
         P = [dict(p, altvals=p["altvals"][:2] if len(p["fp"]) > 3 and p["bs"] == 1 else p["altvals"]) for p in P]
-    if light and tier == "thorough":     # cross-cutting properties: the two smallest bucket sizes, one depth less
-        P = [dict(p, maxdepth=p["maxdepth"] - 1) for p in P if p["bs"] <= 2]
+    # every HISTORY (no state merging, look-ups are operations) of the smallest tables: two keys share a fingerprint, a third maps to the
+    # same first bucket with both candidates equal (its insertion must evict), buckets of one slot
+    for counting in (False, True):
+        P.append(dict(fp={"a": 1, "b": 3, "e": 1}, altvals=[0, 1], bs=1, ms=2, counting=counting, cap0s=[2], autos=[False], maxcap=2,
+                      maxdepth=5 if counting or tier != "quick" else 4, maxout=3, nparts=4, histview=True, queries=True, maxreloads=0))
     return P
 
 
@@ -401,6 +407,8 @@ def run(focus, tier, seed):
     total = Tally(focus)
     jobs = []
     for p in profiles(tier, focus in ("C05", "C14", "C19")):
+        if p.get("histview") and focus == "C05":
+            continue
         mod = mc_module(p)
         const = {k: p[k] for k in p if k != "nparts"}
         for i in range(p["nparts"]):
